@@ -79,6 +79,7 @@ func c16(c *Ctx) {
 	c.registerBeforeWrite("R16.O")
 	r.Rule("R16.L", "the waiter and hint tables are written only inside the exclusive Lock section of their mutex and read inside a Lock / RLock section (= R09.L filed under C16): a map written under RLock while the receive loop reads it ends the process with a fatal error no recover() stops", 8)
 	c.tableLocks("R16.L")
+	c.receiveLoopNeverWaits("R16.Q")
 	r.Rule("R16.M", "every mutex the repository's own code locks is given back on every path to a return (deferred Unlock, or an explicit one before the exit) and is not locked again while held: a handler that leaves the switch early with the lock held stops the loop at the next message of that kind", 10)
 	c.locksReleased("R16.M", c.repoFunctionsWithLocks())
 	r.Rule("R16.X", "no waiter channel is closed by the table or the receive path (a send on a closed channel panics in the receive goroutine)", 1)
@@ -201,7 +202,7 @@ func c16(c *Ctx) {
 							if len(x.Results) == 1 && !an.MayBeNilConst(an.RetVal(x, 0)) {
 								o := tr.OriginString(an.RetVal(x, 0))
 								d := an.NewDeps(nil).Of(an.RetVal(x, 0))
-								if !d.Has("MTProto).MakeRequest") { // only a failed acknowledgement may be returned
+								if !d.Has("MTProto).MakeRequest") && !d.Has("MTProto).makeRequest") { // only a failed acknowledgement may be returned
 									bad = append(bad, "error return at "+c.pos(x.Pos())+" ("+simplifyOrigin(o)+")")
 								}
 							}
